@@ -25,7 +25,7 @@ def scenarios(tier):
             continue
         if nb == 1 and 'other' in shape:
             continue
-        if fwd != 'none' and (shape not in ('ret', 'pause', 'g_aw_same') or extra):
+        if fwd != 'none' and (shape not in ('ret', 'pause', 'g_aw_same', 'g_ff_same') or extra):
             continue
         if not deep and k == 2 and shape not in ('ret', 'pause', 'g_aw_other'):
             continue
@@ -49,6 +49,8 @@ def scenarios(tier):
             # the child must not be handled twice by the same harness handler name: give the forwarded-to bus its own handler
             dst = fwd[1]
             handlers.append(dict(bus=dst, pat='C', name='hc_' + dst, prog=[('ret', 2)])) if dst != ybus else None
+            if shape.startswith('g_') and not any(h['bus'] == dst and h['pat'] == 'G' for h in handlers):
+                handlers.append(dict(bus=dst, pat='G', name='hg_' + dst, prog=[('pause',)]))
         main = []
         if warm:
             main.append(('disp', 'B', 'X', 'await'))
